@@ -32,6 +32,8 @@ type c01Case struct {
 	//  4: the exported otp.DefaultTOTPParam pointer is passed, holding the values
 	// The exported defaults are restored after the call.
 	Via int `json:"via,omitempty"`
+	// an operation of another family run immediately before the call (see disturb; omitted = none)
+	Before int `json:"before,omitempty"`
 }
 
 func counterClass(c uint64) string {
@@ -90,6 +92,7 @@ func checkC01(c c01Case) verdict {
 			param = otp.DefaultTOTPParam
 		}
 	}
+	disturb(c.Before)
 	got, err := otp.GenerateHOTP(secret, c.Counter, param)
 	supported := digits >= 1 && digits <= 10 && algo >= 0 && algo <= 2
 	labels := []string{counterClass(c.Counter), keyClass(len(c.Key))}
@@ -140,6 +143,12 @@ var c01Main = newPart("C01", "main",
 	checkC01)
 
 func genC01(t *rapid.T) c01Case {
+	c := genC01Base(t)
+	c.Before = drawDisturb(t) // drawn last: the cases of a seed are otherwise what they were
+	return c
+}
+
+func genC01Base(t *rapid.T) c01Case {
 	c := c01Case{Key: gen.Key().Draw(t, "key"), Sp: gen.DrawSpelling(t), Counter: gen.Counter().Draw(t, "counter")}
 	switch rapid.IntRange(0, 9).Draw(t, "paramKind") {
 	case 0:
